@@ -1,7 +1,7 @@
 CONSTANTS
   Dev_AdoptClientSecurity = FALSE
   Dev_IgnoreSigFailure = FALSE
-  Dev_TokenKeyLimits = TRUE
+  Dev_TokenKeyLimits = FALSE
   Dev_StatusSkipsVerify = FALSE
   Dev_CloseOnce = FALSE
   Dev_RecycledConfig = FALSE
@@ -9,14 +9,24 @@ CONSTANTS
   Dev_DropPolicy = ""
   Dev_WrongTokenPolicy = FALSE
   SresSet = {"good", "goodsub", "uncertain", "bad"}
-  MaxAttempts = 1
+  MaxAttempts = 3
   Histories = {"none"}
-  ConfigSet = "one"
+  ConfigSet = "seq"
   Scripted = TRUE
-  Intents = {"endpoint", "raw"}
-  DiagKeys = FALSE
+  Intents = {"endpoint"}
+  DiagKeys = TRUE
   Emit = "none"
 INIT Init
 NEXT Next
+INVARIANT InvOnlyEnabled
+INVARIANT InvAdvertisedExactly
+INVARIANT InvTokens
+INVARIANT InvProvenIdentity
+INVARIANT InvNoPanic
+INVARIANT InvBadSigOutcome
+INVARIANT InvNoSessionUnverified
+INVARIANT InvBadStatusOutcome
+INVARIANT InvCleanAfterFailure
 INVARIANT InvInterop
+INVARIANT InvTerminalDef
 CHECK_DEADLOCK FALSE
